@@ -218,6 +218,11 @@ Definition ark_ops : list entry :=
     ("el.sum.e", ("X", fun vs => match vs with VLE l :: nil => out_pt (ark_sum_E l) | _ => bad end));
     ("el.sum.A", ("Y", fun vs => match vs with VLA l :: nil => out_pt (ark_sum_A l) | _ => bad end));
     ("el.sum.a", ("Y", fun vs => match vs with VLA l :: nil => out_pt (ark_sum_A l) | _ => bad end));
+    (* the same sums driven by an iterator that reports no lower size bound (filter / from_fn): the result may not depend on the iterator's hints *)
+    ("el.sum.E.lazy", ("X", fun vs => match vs with VLE l :: nil => out_pt (ark_sum_E l) | _ => bad end));
+    ("el.sum.e.lazy", ("X", fun vs => match vs with VLE l :: nil => out_pt (ark_sum_E l) | _ => bad end));
+    ("el.sum.A.lazy", ("Y", fun vs => match vs with VLA l :: nil => out_pt (ark_sum_A l) | _ => bad end));
+    ("el.sum.a.lazy", ("Y", fun vs => match vs with VLA l :: nil => out_pt (ark_sum_A l) | _ => bad end));
     (* scalar multiplication *)
     ("el.smul.Ef", ("EF", EF (fun p k => out_pt (ark_smul p k)))); ("el.smul.Er", ("EF", EF (fun p k => out_pt (ark_smul p k))));
     ("el.smul.ef", ("EF", EF (fun p k => out_pt (ark_smul p k)))); ("el.smul.er", ("EF", EF (fun p k => out_pt (ark_smul p k))));
